@@ -206,6 +206,13 @@ def chunk_exact_cases(g, n):
     chunk), under limits of several tree depths, alone and nested"""
     r = g.rng
     out = []
+    # always: byte-sized elements filling exactly one and two chunks, as list and as vector, alone and as a field
+    for cnt in (32, 64):
+        vals = ['s'] + [g.val('u8', 1) for _ in range(cnt)]
+        for t in (['list', 'u8', r.choice([cnt, cnt + 1, 1000])], ['vec', 'u8', cnt], ['list', 'bool', cnt], ['vec', 'bool', cnt]):
+            v = vals if t[1] == 'u8' else ['s'] + [r.choice('01') for _ in range(cnt)]
+            out.append(show(['val', t, v]))
+            out.append(show(['val', ['cont', 'u16', t, 'u8'], ['s', '7', v, '9']]))
     for _ in range(n):
         nbytes = 32 * r.choice([1, 1, 2, 3, 4])
         k = r.choice(['Bl', 'Bl', 'u8', 'u16', 'u64', 'u128', 'bool', 'bl'])
@@ -1144,8 +1151,9 @@ class DecProp(Prop):
         if bd is not None and int(a) > int(bd):
             out.append(F('prop', 'decoding made more nested decode calls than the linear bound W(t)*(scope+1)+A(t) proved for the modelled decoder',
                          a, 'bound %s (model work %s)' % (bd, b)))
-        elif a != b:
-            out.append(F('corr', 'number of deserialize calls differs from the modelled decoder', a, b))
+        elif int(a) > int(b):
+            # (fewer calls than the model — e.g. elements decoded in bulk — stay within the proved bound: not reported)
+            out.append(F('corr', 'more deserialize calls than the modelled decoder makes on this input', a, b))
         return out
 
 
@@ -1162,6 +1170,11 @@ class C09(DecProp):
         out += self.work(case, py, mo, stats)
         if py.get('p.redec') not in (None, '1'):
             out.append(F('prop', 'the same input decoded again, after the first result was mutated, gives another value', py.get('p.redec'), py.get('p.dec')))
+        if 'p.shape' in py and 'i.shape' in mo and py['p.shape'] != mo['i.shape'] and '...' not in py['p.shape'] + mo['i.shape']:
+            # (a summary where a chunk belongs, or the other way round, leaves the root as it is)
+            out.append(F('prop' if py['p.shape'] == 'err' else 'corr',
+                         'the tree the bit-field decoder built from the input is not the constructor tree of the decoded bits (same root, other shape)',
+                         py['p.shape'][:300], mo['i.shape'][:300]))
         # decode_bytes (for the bare integer types: the lenient bytes-to-integer helper): whatever it
         # returns must satisfy the invariants of the type
         d0 = py.get('p.decb0')
@@ -2069,6 +2082,19 @@ class C08(Prop):
             wrap = r.random() < 0.3 and t[0] != 'vec'   # (a container class with a huge vector field cannot be exercised: its default value is huge)
             tt = ['cont', 'u8', t, 'u16'] if wrap else t
             out.append(show(['path', tt] + ([1] if wrap else []) + [key] + ([1] if e[0] == 'cont' and key < lim and r.random() < 0.5 else [])))
+        # container types that PRINT alike (same class name, same field names, same field class names; they differ in a
+        # length / limit of a field): the same path through each of them, one after the other
+        for fam in alike_families(g, max(6, self.n(tier) // 25)):
+            for t in fam:
+                e = t[1]
+                if e[0] != 'cont':
+                    e = ['cont', 'u8', e]
+                inner = e[2]
+                top = inner[1] if kind(inner) in ('Bv', 'Bl', 'bv', 'bl') else 3
+                for key in sorted({0, top - 1, top // 2}):
+                    if key >= 0:
+                        out.append(show(['path', e, 1, key]))
+                out.append(show(['path', [t[0], e, t[2]], 0, 1, max(top - 1, 0)]))
         if tier == 'thorough':
             # exhaustive: every key (and the pseudo keys) of a table of small types, two levels deep
             table = [['list', 'u16', 17], ['vec', 'u64', 5], ['bl', 300], ['bv', 257], ['Bv', 33], ['Bl', 65],
@@ -2240,6 +2266,16 @@ class StoreProp(Prop):
             # one in four histories runs LAZILY: nothing is hashed or read before the end
             out.append(show(['storel' if k % 3 == 2 or k % 10 in (5, 6) else 'store', t, v] + ops))
         out += stale_cases(g, max(10, self.n(tier) // 10))
+        # ROOT unions (no enclosing view) whose selected option is a composite: snapshot and copy first, then writes through
+        # freshly obtained value views of the original and of the copy
+        for _ in range(max(8, self.n(tier) // 12)):
+            opt = r.choice([['cont', 'u8', 'u16'], ['list', 'u16', 5], ['cont', ['list', 'u8', 4], 'u8'], ['vec', ['cont', 'u8'], 2], ['bl', 12]])
+            t = ['union'] + (['none'] if r.random() < 0.5 else []) + ([r.choice(['u8', ['list', 'u8', 2]])] if r.random() < 0.5 else []) + [opt]
+            v = ['u', len(t) - 2, g.val(opt, 4)]
+            sg = StoreGen(g, t, v)
+            sg.views.append(dict(t=t, v=v, hook=None, kids=False))
+            ops = [['snap', 0], ['copy', 0]] + sg.history(r.choice([6, 12]))
+            out.append(show(['store', t, v] + ops))
         return out
 
     def shrink_candidates(self, case):
